@@ -208,6 +208,7 @@ func imagexformCmd(args []string) error {
 	outDir := fs.String("out", "", "")
 	tier := fs.String("tier", "quick", "")
 	seed := fs.Int64("seed", 1, "")
+	serial := fs.String("serial", "", "run single-threaded, writing a marker line to this file before every run (crash forensics)")
 	fs.Parse(args)
 	f, err := os.Open(*in)
 	if err != nil {
@@ -245,7 +246,22 @@ func imagexformCmd(args []string) error {
 	}
 	srcKinds := img.SrcKinds[:img.NListedSrcKinds]
 	var gTotal, gBad int64
-	parallel(len(cases), func(i int) {
+	var mark func(string)
+	runAll := parallel
+	if *serial != "" {
+		mf, err := os.Create(*serial)
+		if err != nil {
+			return err
+		}
+		defer mf.Close()
+		mark = func(s string) { mf.WriteString(s + "\n"); mf.Sync() }
+		runAll = func(n int, fn func(int)) {
+			for i := 0; i < n; i++ {
+				fn(i)
+			}
+		}
+	}
+	runAll(len(cases), func(i int) {
 		c := cases[i]
 		rows := c.Cfg.SH
 		pars := []int{c.Cfg.P, 1, 2, 3, 7, 16, rows + 5}
@@ -258,6 +274,9 @@ func imagexformCmd(args []string) error {
 				sk = dk
 			}
 			par := pars[(i+t)%len(pars)]
+			if mark != nil {
+				mark(fmt.Sprintf(`{"id":%d,"cfg":%s,"src":%q,"dst":%q,"par":%d,"xform":"TransformImageColor(marking)"}`, i+1, c.CfgRaw, sk, dk, par))
+			}
 			obs, pan := runT(c, sk, dk, par)
 			ev := map[string]interface{}{"id": i + 1, "cfg": c.CfgRaw, "src": sk, "dst": dk, "par": par, "observed": obs, "panic": pan != ""}
 			if pan != "" {
@@ -280,6 +299,9 @@ func imagexformCmd(args []string) error {
 			}
 			xf := xforms[(n/7)%len(xforms)]
 			par := pars[(n/3)%len(pars)]
+			if mark != nil {
+				mark(fmt.Sprintf(`{"id":%d,"cfg":%s,"src":%q,"dst":%q,"par":%d,"xform":%q}`, i+1, c.CfgRaw, sk, dk, par, xf.name))
+			}
 			why, ok := runG(c, sk, dk, xf, par, uint32(n))
 			rec := map[string]interface{}{"id": i + 1, "cfg": c.CfgRaw, "src": sk, "dst": dk, "xform": xf.name, "par": par, "ok": ok}
 			if !ok {
